@@ -19,6 +19,7 @@ import (
 	"strings"
 	"sync"
 	"testing"
+	"time"
 	"unicode"
 	"unicode/utf8"
 
@@ -29,7 +30,7 @@ import (
 // ---- job / result exchanged between the supervising parent and the child ----
 
 type c35Job struct {
-	Kind    string   `json:"kind"` // meta_ascii | meta_unicode | meta_embed | embed_punct | hostile | noise | embed_noise
+	Kind    string   `json:"kind"` // meta_ascii | meta_unicode | meta_embed | embed_punct | hostile | noise | embed_noise | uspace | nearspace | space_noise
 	Sig     string   `json:"sig"`
 	Texts   [][]byte `json:"texts"` // Texts[0] is the base; for meta_* the rest are keyword-case variants of it
 	Sites   []string `json:"sites,omitempty"`
@@ -37,6 +38,11 @@ type c35Job struct {
 	Shorter int      `json:"shorter,omitempty"`
 	EndKw   string   `json:"end_kw,omitempty"` // meta_embed: keyword spelled by the suffix of the statement's last identifier
 	Feats   []string `json:"feats,omitempty"`
+	// uspace / nearspace: how the separators were rewritten
+	Mode    string   `json:"mode,omitempty"`
+	AfterKw []string `json:"after_kw,omitempty"` // keywords directly followed by a non-plain separator rune
+	Runes   []string `json:"runes,omitempty"`    // U+XXXX of the non-plain separator runes
+	StKind  string   `json:"st_kind,omitempty"`  // statement kind
 }
 
 type c35Finding struct {
@@ -277,7 +283,9 @@ func TestVerifC35Child(t *testing.T) {
 	// inputs are at most a few dozen KiB, so legitimate recursion (nested EXPLAIN) stays far below this;
 	// the default 1 GiB limit would only make a runaway recursion slow and memory-hungry to detect
 	debug.SetMaxStack(64 << 20)
+	c35HeapGuard()
 	start, _ := strconv.Atoi(os.Getenv("VERIF_C35_START"))
+	only := os.Getenv("VERIF_C35_ONLY") == "1" // confirmation run: job `start` alone
 	shard, _ := strconv.Atoi(os.Getenv("VERIF_C35_SHARD"))
 	nshards, _ := strconv.Atoi(os.Getenv("VERIF_C35_NSHARDS"))
 	if nshards < 1 {
@@ -303,7 +311,10 @@ func TestVerifC35Child(t *testing.T) {
 	defer prog.Close()
 	w := bufio.NewWriter(out)
 	for i := start; i < len(jobs); i++ {
-		if i%nshards != shard {
+		if only && i != start {
+			break
+		}
+		if i%nshards != shard && !only {
 			continue
 		}
 		// the index is on disk before the target is called: a death is attributed to it
@@ -314,7 +325,7 @@ func TestVerifC35Child(t *testing.T) {
 		b, _ := json.Marshal(res)
 		w.Write(b)
 		w.WriteByte('\n')
-		if len(res.Findings) > 0 || i%256 == 0 {
+		if len(res.Findings) > 0 || i%256 == 0 || only {
 			w.Flush()
 		}
 	}
@@ -322,6 +333,28 @@ func TestVerifC35Child(t *testing.T) {
 	w.Write(b)
 	w.WriteByte('\n')
 	w.Flush()
+}
+
+// c35HeapLimit: live heap above which the crash-box child gives up as "out of
+// memory". Inputs are below 64 KiB and the parser keeps nothing between calls; the
+// job list itself is a few dozen MiB.
+const c35HeapLimit = 3 << 30
+
+// c35HeapGuard makes runaway allocation a quick, attributable process death
+// instead of an exhausted machine.
+func c35HeapGuard() {
+	debug.SetMemoryLimit(c35HeapLimit)
+	go func() {
+		var ms runtime.MemStats
+		for {
+			time.Sleep(200 * time.Millisecond)
+			runtime.ReadMemStats(&ms)
+			if ms.HeapAlloc > c35HeapLimit {
+				fmt.Fprintf(os.Stderr, "fatal error: verif heap guard: out of memory (live heap %d bytes > limit %d)\n", ms.HeapAlloc, uint64(c35HeapLimit))
+				os.Exit(96)
+			}
+		}
+	}()
 }
 
 func c35Jobs(t *testing.T, r *verifkit.Run, rs gen.RuneSet) []c35Job {
@@ -381,6 +414,43 @@ func c35Jobs(t *testing.T, r *verifkit.Run, rs gen.RuneSet) []c35Job {
 		s, how := gen.EmbedNoise(r.Rand(2*n + i))
 		jobs = append(jobs, c35Job{Kind: "embed_noise", Sig: how, Texts: [][]byte{[]byte(s)}})
 	}
+	// white space: statements of every kind whose separators (after every keyword, identifier, literal and punctuation mark,
+	// in front of and behind the statement) come from the part of unicode.IsSpace outside the ASCII blanks, two of three,
+	// or from those and near-space runes that unicode.IsSpace rejects (zero-width space, BOM, soft hyphen, ...), one of three.
+	// Which of these runes separate tokens and whether the words between them are keywords is the parser's business, so these
+	// statements and a keyword-case variant of each are watched for crashes only.
+	ss := gen.Spaces()
+	for i := 0; i < n/4; i++ {
+		rng := r.Rand(3*n + i)
+		var q gen.Q
+		if i%2 == 0 {
+			q = gen.GenKind(rng, gen.StatementKinds[(i/2)%len(gen.StatementKinds)])
+		} else {
+			q = gen.Gen(rng)
+		}
+		near := i%3 == 2
+		sp := q.WithSpaces(rng, ss, near)
+		j := c35Job{Kind: "uspace", Sig: sp.Mode + ":" + q.Sig(), Texts: [][]byte{[]byte(sp.Text), []byte(sp.Q.FlipCase(rng).String())}, Mode: sp.Mode, AfterKw: sp.AfterKw, StKind: q.Kind}
+		if near {
+			j.Kind = "nearspace"
+		}
+		seen := map[rune]bool{}
+		for _, ru := range sp.Runes {
+			if !seen[ru] {
+				seen[ru] = true
+				cls := "near"
+				if unicode.IsSpace(ru) {
+					cls = "exotic"
+				}
+				j.Runes = append(j.Runes, fmt.Sprintf("%s:U+%04X", cls, ru))
+			}
+		}
+		jobs = append(jobs, j)
+	}
+	for i := 0; i < n/8; i++ {
+		s, how := gen.SpaceNoise(r.Rand(4*n+i), ss, r.Thorough() && i%32 == 3)
+		jobs = append(jobs, c35Job{Kind: "space_noise", Sig: how, Texts: [][]byte{[]byte(s)}})
+	}
 	// the probe of DESIGN.md §5 and its neighbours are always part of the list
 	for _, s := range []string{"select ȺȺȺȺȺȺȺȺȺȺ from t", "select Ⱥ from t", "select * from t group by ȺȺȺȺȺȺȺȺȺȺȺȺ", "select * from t order by ȺȺȺȺȺȺȺȺȺȺȺȺ",
 		"select * from t join u on ȺȺȺȺȺȺȺȺȺȺȺȺ", "select İİİİİİİİİİ from t", "select KKKK from t group by K", "select \xff\xff\xff\xff from t", "explain select ȺȺȺȺȺȺȺȺȺȺ from t"} {
@@ -431,74 +501,93 @@ func TestVerifC35Parse(t *testing.T) {
 	results := make(map[int]c35Result, len(jobs))
 	var mu sync.Mutex
 	var wg sync.WaitGroup
-	deaths := 0
+	deaths, hangs, suspicions := 0, 0, 0
 	var fatal []string
+	record := func(rs []c35Result) {
+		mu.Lock()
+		for _, res := range rs {
+			results[res.Job] = res
+		}
+		mu.Unlock()
+	}
 	for sh := 0; sh < shards; sh++ {
 		wg.Add(1)
 		go func(sh int) {
 			defer wg.Done()
 			start, myDeaths := 0, 0
 			for round := 0; start < len(jobs); round++ {
-				outPath := filepath.Join(dir, fmt.Sprintf("out-%d-%d.jsonl", sh, round))
-				progPath := filepath.Join(dir, fmt.Sprintf("progress-%d-%d", sh, round))
-				cmd := exec.Command(os.Args[0], "-test.run=^TestVerifC35Child$", "-test.timeout=30m")
-				cmd.Env = append(os.Environ(), "VERIF_C35_IN="+inPath, "VERIF_C35_OUT="+outPath, "VERIF_C35_PROGRESS="+progPath,
-					"VERIF_C35_START="+strconv.Itoa(start), "VERIF_C35_SHARD="+strconv.Itoa(sh), "VERIF_C35_NSHARDS="+strconv.Itoa(shards))
-				var stderr bytes.Buffer
-				cmd.Stdout = &stderr
-				cmd.Stderr = &stderr
-				runErr := cmd.Run()
-				done := false
-				if f, err := os.Open(outPath); err == nil {
-					sc := bufio.NewScanner(f)
-					sc.Buffer(make([]byte, 1<<20), 1<<28)
-					for sc.Scan() {
-						var res c35Result
-						if json.Unmarshal(sc.Bytes(), &res) != nil {
-							continue // torn last line of a dead child
-						}
-						if res.Done {
-							done = true
-							continue
-						}
-						mu.Lock()
-						results[res.Job] = res
-						mu.Unlock()
-					}
-					f.Close()
-				}
-				if done && runErr == nil {
+				run := c35RunChild(dir, fmt.Sprintf("%d-%d", sh, round), inPath, start, sh, shards, false, c35Stall, 0)
+				record(run.results)
+				if run.done && run.err == nil {
 					return
 				}
-				pb, perr := os.ReadFile(progPath)
-				if perr != nil || done {
+				if run.at < 0 || run.done {
 					// no job started, or all jobs evaluated and the binary failed afterwards: harness problem
 					mu.Lock()
-					fatal = append(fatal, fmt.Sprintf("crash-box child %d failed outside a job: %v\n%s", sh, runErr, c35Tail(stderr.String())))
+					fatal = append(fatal, fmt.Sprintf("crash-box child %d failed outside a job (hung=%v): %v\n%s", sh, run.hung, run.err, c35Tail(run.stderr)))
 					mu.Unlock()
 					return
 				}
-				at, _ := strconv.Atoi(strings.TrimSpace(string(pb)))
-				myDeaths++
+				at := run.at
 				job := jobs[at]
-				kind := "exit"
-				all := stderr.String()
-				switch {
-				case strings.Contains(all, "stack overflow") || strings.Contains(all, "goroutine stack exceeds"):
-					kind = "stack_overflow"
-				case strings.Contains(all, "out of memory") || strings.Contains(all, "cannot allocate memory"):
-					kind = "out_of_memory"
-				case strings.Contains(all, "fatal error:"):
-					kind = "fatal_error"
-				}
-				r.Violation("parse_process_death_"+kind, fmt.Sprintf("the process died while parsing job %d (%s): %q", at, job.Kind, c35Clip(string(job.Texts[0]))),
-					map[string]any{"texts_hex": c35Hex(job.Texts), "first_text": string(job.Texts[0]), "exit": fmt.Sprint(runErr), "stderr_tail": c35Tail(all)})
-				mu.Lock()
-				deaths++
-				mu.Unlock()
 				start = at + 1
+				// confirmation: the suspected job alone, in a fresh process
+				onePath := filepath.Join(dir, fmt.Sprintf("one-%d-%d.json", sh, round))
+				ob, _ := json.Marshal([]c35Job{job})
+				if err := os.WriteFile(onePath, ob, 0o644); err != nil {
+					mu.Lock()
+					fatal = append(fatal, err.Error())
+					mu.Unlock()
+					return
+				}
+				again := c35RunChild(dir, fmt.Sprintf("%d-%d-confirm", sh, round), onePath, 0, 0, 1, true, 0, c35ConfirmLimit)
+				replay := map[string]any{"texts_hex": c35Hex(job.Texts), "first_text": string(job.Texts[0]), "job_kind": job.Kind, "exit": fmt.Sprint(run.err), "stderr_tail": c35Tail(run.stderr),
+					"rerun_alone_exit": fmt.Sprint(again.err), "rerun_alone_hung": again.hung, "rerun_alone_cpu_s": again.cpu.Seconds(), "rerun_alone_stderr_tail": c35Tail(again.stderr)}
+				switch {
+				case again.done && again.err == nil:
+					// alone, the job is evaluated to the end
+					for _, res := range again.results {
+						res.Job = at
+						record([]c35Result{res})
+					}
+					if !run.hung && c35RuntimeReport(run.stderr) {
+						// the runtime itself reported the crash: a violation even though it did not repeat
+						myDeaths++
+						r.Violation("parse_process_death_"+c35DeathKind(run.stderr), fmt.Sprintf("the process died while parsing job %d (%s), not reproduced by the job alone: %q", at, job.Kind, c35Clip(string(job.Texts[0]))), replay)
+						mu.Lock()
+						deaths++
+						mu.Unlock()
+					} else if run.hung {
+						mu.Lock()
+						suspicions++
+						mu.Unlock()
+					} else {
+						r.Inconclusive(fmt.Sprintf("crash box %d ended (%v) at job %d without a report of the Go runtime, and the job alone is parsed normally: killed from outside?", sh, run.err, at))
+					}
+				case again.hung:
+					myDeaths++
+					if again.cpu >= c35HangCPU {
+						r.Violation("parse_process_hang", fmt.Sprintf("Parse does not return: job %d (%s) alone consumed %.0f s of CPU time without finishing: %q", at, job.Kind, again.cpu.Seconds(), c35Clip(string(job.Texts[0]))), replay)
+						mu.Lock()
+						hangs++
+						mu.Unlock()
+					} else {
+						r.Inconclusive(fmt.Sprintf("job %d did not finish within the watchdog but the process got only %.1f s of CPU time: nothing decided for it", at, again.cpu.Seconds()))
+					}
+				default:
+					// the job alone kills the process as well
+					myDeaths++
+					all := run.stderr + "\n" + again.stderr
+					if run.hung {
+						all = again.stderr
+					}
+					r.Violation("parse_process_death_"+c35DeathKind(all), fmt.Sprintf("the process died while parsing job %d (%s), and again with that job alone: %q", at, job.Kind, c35Clip(string(job.Texts[0]))), replay)
+					mu.Lock()
+					deaths++
+					mu.Unlock()
+				}
 				if myDeaths >= 3 {
-					r.Inconclusive(fmt.Sprintf("crash box %d gave up after %d process deaths; its jobs from %d on were not executed", sh, myDeaths, start))
+					r.Inconclusive(fmt.Sprintf("crash box %d gave up after %d process deaths / hangs; its jobs from %d on were not executed", sh, myDeaths, start))
 					return
 				}
 			}
@@ -508,9 +597,18 @@ func TestVerifC35Parse(t *testing.T) {
 	if len(fatal) > 0 {
 		t.Fatal(strings.Join(fatal, "\n"))
 	}
+	r.Count("child_process_hangs", int64(hangs))
+	r.Count("watchdog_suspicions_not_confirmed", int64(suspicions))
 	r.Count("child_process_deaths", int64(deaths))
 
 	var maxAlloc uint64
+	for i, job := range jobs {
+		// one white-space statement that was parsed to the end is sampled first (the kit keeps 4 samples)
+		if res, ok := results[i]; ok && job.Kind == "uspace" && job.Mode == "after_kw" && len(res.Outcomes) > 0 && strings.HasPrefix(res.Outcomes[0], "ok:") {
+			r.Sample(map[string]any{"kind": job.Kind, "mode": job.Mode, "after_keywords": job.AfterKw, "separator_runes": job.Runes, "texts_go_quoted": []string{strconv.QuoteToASCII(c35Clip(string(job.Texts[0]))), strconv.QuoteToASCII(c35Clip(string(job.Texts[1])))}, "outcomes": res.Outcomes})
+			break
+		}
+	}
 	for i, job := range jobs {
 		res, ok := results[i]
 		if !ok {
@@ -587,6 +685,28 @@ func TestVerifC35Parse(t *testing.T) {
 					r.Count("hostile_with_shorter_lowercase", 1)
 				}
 			}
+		case "uspace", "nearspace":
+			r.Seen("space_modes", job.Mode)
+			r.Seen("space_statement_kinds_by_mode", job.StKind+":"+job.Mode)
+			for _, kw := range job.AfterKw {
+				r.Seen("space_after_keyword", kw)
+			}
+			for _, ru := range job.Runes {
+				if strings.HasPrefix(ru, "exotic:") {
+					r.Seen("space_runes_exotic", ru)
+				} else {
+					r.Seen("space_runes_near", ru)
+				}
+			}
+			if reached {
+				r.Count(job.Kind+"_reached_parser", 1)
+				r.Seen("space_statement_kinds_reached", job.StKind)
+			}
+			if valid {
+				r.Count(job.Kind+"_valid", 1)
+			}
+		case "space_noise":
+			r.Seen("space_noise_kinds", job.Sig)
 		case "noise":
 			r.Seen("noise_kinds", job.Sig)
 		case "embed_noise":
@@ -605,20 +725,156 @@ func TestVerifC35Parse(t *testing.T) {
 	if replaying {
 		return
 	}
-	r.Floor("valid_statements_with_case_variants_meta_ascii", int64(len(jobs)/8))
-	r.Floor("valid_statements_with_case_variants_meta_unicode", int64(len(jobs)/40))
-	r.Floor("hostile_with_longer_lowercase", int64(len(jobs)/16))
-	r.Floor("hostile_with_shorter_lowercase", int64(len(jobs)/64))
+	// floors of the older families keep their size: they are relative to the jobs of those families
+	legacy, spaced := 0, 0
+	for _, job := range jobs {
+		switch job.Kind {
+		case "uspace", "nearspace":
+			spaced++
+		case "space_noise":
+		default:
+			legacy++
+		}
+	}
+	r.Floor("valid_statements_with_case_variants_meta_ascii", int64(legacy/8))
+	r.Floor("valid_statements_with_case_variants_meta_unicode", int64(legacy/40))
+	r.Floor("hostile_with_longer_lowercase", int64(legacy/16))
+	r.Floor("hostile_with_shorter_lowercase", int64(legacy/64))
 	r.Floor("valid_statement_shapes", 40)
 	r.Floor("rune_sites", 20)
 	r.Floor("noise_kinds", 8)
-	r.Floor("valid_statements_with_case_variants_meta_embed", int64(len(jobs)/24))
-	r.Floor("embed_statements_ending_in_keyword_suffix", int64(len(jobs)/40))
-	r.Floor("embed_valid_statements_ending_in_keyword_suffix", int64(len(jobs)/80))
+	r.Floor("valid_statements_with_case_variants_meta_embed", int64(legacy/24))
+	r.Floor("embed_statements_ending_in_keyword_suffix", int64(legacy/40))
+	r.Floor("embed_valid_statements_ending_in_keyword_suffix", int64(legacy/80))
 	r.Floor("embed_end_keywords", int64(len(gen.SingleKeywords())))
 	r.Floor("embed_statement_ends_after", 5)
 	r.Floor("embed_forms", 4)
 	r.Floor("embed_noise_kinds", 4)
+	sp := gen.Spaces()
+	r.Note("space_runes_exotic_alphabet", len(sp.Exotic))
+	r.Note("space_runes_near_alphabet", len(sp.Near))
+	r.Floor("space_runes_exotic", int64(len(sp.Exotic)))
+	r.Floor("space_runes_near", int64(len(sp.Near)))
+	r.Floor("space_after_keyword", int64(len(gen.Keywords)-2))
+	r.Floor("space_modes", 5)
+	r.Floor("space_statement_kinds_by_mode", 25)
+	r.Floor("space_statement_kinds_reached", int64(len(gen.StatementKinds)))
+	r.Floor("uspace_reached_parser", int64(spaced/3))
+	r.Floor("uspace_valid", int64(spaced/8))
+	r.Floor("space_noise_kinds", 6)
+}
+
+
+// Watchdogs of the crash box. c35Stall: a child whose progress index does not
+// move for this long is suspected to hang (a Parse call on < 64 KiB takes
+// milliseconds). The suspicion alone decides nothing: the job is re-run alone,
+// and only a process that then burns c35HangCPU of CPU time (not wall time)
+// without finishing counts as a hang.
+const (
+	c35Stall        = 150 * time.Second
+	c35ConfirmLimit = 420 * time.Second
+	c35HangCPU      = 60 * time.Second
+)
+
+type c35ChildRun struct {
+	done    bool  // the end marker was written
+	err     error // exit status
+	hung    bool  // killed by the watchdog
+	at      int   // last index logged before a call (-1: none)
+	cpu     time.Duration
+	stderr  string
+	results []c35Result
+}
+
+// c35RunChild runs one crash-box process over jobs[start:] of residue class
+// shard (only: job start alone) and collects what it wrote.
+func c35RunChild(dir, tag, inPath string, start, shard, nshards int, only bool, stall, limit time.Duration) c35ChildRun {
+	outPath := filepath.Join(dir, "out-"+tag+".jsonl")
+	progPath := filepath.Join(dir, "progress-"+tag)
+	cmd := exec.Command(os.Args[0], "-test.run=^TestVerifC35Child$", "-test.timeout=60m")
+	cmd.Env = append(os.Environ(), "VERIF_C35_IN="+inPath, "VERIF_C35_OUT="+outPath, "VERIF_C35_PROGRESS="+progPath,
+		"VERIF_C35_START="+strconv.Itoa(start), "VERIF_C35_SHARD="+strconv.Itoa(shard), "VERIF_C35_NSHARDS="+strconv.Itoa(nshards))
+	if only {
+		cmd.Env = append(cmd.Env, "VERIF_C35_ONLY=1")
+	}
+	var stderr bytes.Buffer
+	cmd.Stdout = &stderr
+	cmd.Stderr = &stderr
+	run := c35ChildRun{at: -1}
+	if err := cmd.Start(); err != nil {
+		run.err = err
+		return run
+	}
+	waitCh := make(chan error, 1)
+	go func() { waitCh <- cmd.Wait() }()
+	begin, lastChange, last := time.Now(), time.Now(), ""
+	tick := time.NewTicker(500 * time.Millisecond)
+	defer tick.Stop()
+wait:
+	for {
+		select {
+		case err := <-waitCh:
+			run.err = err
+			break wait
+		case <-tick.C:
+			pb, _ := os.ReadFile(progPath)
+			if cur := string(pb); cur != last {
+				last, lastChange = cur, time.Now()
+			}
+			stalled := stall > 0 && last != "" && time.Since(lastChange) > stall
+			neverStarted := last == "" && time.Since(begin) > 20*time.Minute
+			overLimit := limit > 0 && time.Since(begin) > limit
+			if stalled || neverStarted || overLimit {
+				run.hung = true
+				cmd.Process.Kill()
+				run.err = <-waitCh
+				break wait
+			}
+		}
+	}
+	if ps := cmd.ProcessState; ps != nil {
+		run.cpu = ps.UserTime() + ps.SystemTime()
+	}
+	run.stderr = stderr.String()
+	if f, err := os.Open(outPath); err == nil {
+		sc := bufio.NewScanner(f)
+		sc.Buffer(make([]byte, 1<<20), 1<<28)
+		for sc.Scan() {
+			var res c35Result
+			if json.Unmarshal(sc.Bytes(), &res) != nil {
+				continue // torn last line of a dead child
+			}
+			if res.Done {
+				run.done = true
+				continue
+			}
+			run.results = append(run.results, res)
+		}
+		f.Close()
+	}
+	if pb, err := os.ReadFile(progPath); err == nil {
+		if at, err := strconv.Atoi(strings.TrimSpace(string(pb))); err == nil {
+			run.at = at
+		}
+	}
+	return run
+}
+
+// c35RuntimeReport: the Go runtime (or the heap guard) announced the end of the process itself.
+func c35RuntimeReport(stderr string) bool {
+	return strings.Contains(stderr, "fatal error:") || strings.Contains(stderr, "goroutine stack exceeds") || strings.Contains(stderr, "panic: ") || strings.Contains(stderr, "SIGSEGV")
+}
+
+func c35DeathKind(all string) string {
+	switch {
+	case strings.Contains(all, "stack overflow") || strings.Contains(all, "goroutine stack exceeds"):
+		return "stack_overflow"
+	case strings.Contains(all, "out of memory") || strings.Contains(all, "cannot allocate memory"):
+		return "out_of_memory"
+	case strings.Contains(all, "fatal error:"):
+		return "fatal_error"
+	}
+	return "exit"
 }
 
 func c35ReplayJob(w map[string]any) (c35Job, bool) {
